@@ -17,7 +17,7 @@ import sys
 from reactivex import Observable
 
 from .core import HarnessError
-from .lab import BudgetExceeded, Lab, Probe, SpinGuard, _Logged
+from .lab import BudgetExceeded, Lab, LabTestScheduler, Probe, SpinGuard, _Logged
 from .pipes import OPS, Builder
 
 INF = float("inf")
@@ -31,6 +31,24 @@ class Diverged(BaseException):
     `except Exception` in the library converts it into a notification."""
 
 
+class TScheduler(LabTestScheduler):
+    """Detects the library's own spin bump (VirtualTimeScheduler advances the clock after 100 consecutive
+    same-instant queue items, cancelled ones included, which the lab's counter does not see): an action that runs
+    at a clock value later than both its due time and the time it was scheduled at means virtual time is no longer
+    faithful - the run is discarded as 'spin' (C29's business)."""
+
+    def schedule_absolute(self, duetime, action, state=None):
+        due = duetime if isinstance(duetime, float) else self.to_seconds(duetime)
+        due = max(float(due), float(self._clock))
+
+        def checked(s, st_=None):
+            if float(self._clock) > due + 1e-9:
+                raise SpinGuard()
+            return action(s, st_)
+
+        return super().schedule_absolute(duetime, checked, state)
+
+
 class TLab(Lab):
     """Lab that records the clock values at which actions ran and aborts runaway synchronous recursion
     before the interpreter's RecursionError (which the library would swallow) can occur."""
@@ -38,6 +56,9 @@ class TLab(Lab):
     def __init__(self, *a, depth_limit=520, **kw):
         kw.setdefault("budget", 5000)
         super().__init__(*a, **kw)
+        if self.clock_kind == "test":
+            self.sched = TScheduler()
+            self.sched._lab = self
         self.ticks = set()
         self.depth_limit = depth_limit
         self.action_seq = []  # value of the global seq counter at the start of every scheduled action
@@ -189,6 +210,7 @@ class DProbe(Probe):
         self.dispose_frames = []  # frame objects on the stack when dispose() was first called (kept alive: ids stay unique)
         self.dispose_frame_ids = set()
         self.in_progress = set()  # (source name, idx) whose subscribe() had not yet returned a handle at dispose
+        self.subscribing = False  # some library subscribe() call was on the stack at dispose (handles not yet handed over)
         if kw.get("depth", 0) == 0 and hasattr(lab, "watch") and lab.watch is None:
             lab.watch = self
 
@@ -275,6 +297,8 @@ class DProbe(Probe):
             self.dispose_frames.append(f)
             self.dispose_frame_ids.add(id(f))
             c = f.f_code
+            if c.co_name == "subscribe" and "/reactivex/" in c.co_filename.replace("\\", "/"):
+                self.subscribing = True
             if c.co_name == "_subscribe_core":
                 src = f.f_locals.get("self")
                 if isinstance(src, _Logged) and f.f_locals.get("idx") is not None:
